@@ -45,6 +45,7 @@ MIN_REACH = {
     "reloads_through_load_crops": {"quick": 10, "thorough": 100},
     "resows_refused_for_their_shape": {"quick": 50, "thorough": 600},
     "crops_whose_function_is_not_saved": {"quick": 12, "thorough": 300},
+    "crops_of_ten_and_more_batches": {"quick": 15, "thorough": 300},
     "pooled_grows_around_a_resow_that_replaced_the_function": {"quick": 12, "thorough": 200},
 }
 TIME_BUDGET = {"quick": 300, "thorough": 3000}
@@ -70,6 +71,10 @@ def cases(ctx):
     for i in range(ctx.pick(300, 6000)):
         B = rng.randint(1, 8)
         n = rng.randint(B, max(B, min(20, 3 * B)))
+        if i % 9 == 4:
+            # crops of ten and more batches of unequal sizes (two-digit batch ids)
+            B = 10 + i % 5
+            n = 2 * B + 3
         use_cases = rng.random() < 0.3
         hist = [rng.choice(OPS) for _ in range(rng.randint(3, 12))]
         yield {"B": B, "n": n, "cases": use_cases, "batching": rng.choice(["num_batches", "batchsize"]),
@@ -239,6 +244,8 @@ def run_case(ctx, case):
                     nontrivial=B >= 2, info={"queries": [q[0], q[1], list(q[2]), q[3]], "finished": sorted(finished)})
 
     judge("sow", crop)
+    if B >= 10:
+        ctx.count("crops_of_ten_and_more_batches")
     hist = list(case["hist"])
     if nosave:
         hist = [{"grow": "grow_fn", "grow_subset": "grow_fn", "grow_missing": "grow_fn", "grow_unpicklable": "query", "resow": "reload",
